@@ -136,7 +136,7 @@ def run(pid, tier, seed, a, t0):
         fn = getattr(importlib.import_module(prod[0]), prod[1])
         res = fn(pid, tier)
         items.extend(res)
-    timeout = P.get("timeout", 60)
+    timeout = P.get("timeout", 120)
     assumed_obls = [o for o in allobls if getattr(o, "assumed", None)]
     allobls = [o for o in allobls if not getattr(o, "assumed", None)]
     for o in assumed_obls:
